@@ -22,7 +22,7 @@ UUIDS = ["123e4567-e89b-12d3-a456-426614174000", "00000000-0000-0000-0000-000000
 BLOBS = ["", "AA==", "aGVsbG8="]
 
 _WARM = [
-    (Person, {"firstName": "a", "home-address": {"street": "s"}, "status": "active", "level": 1, "attrs": {"k": 1}, "addresses": [{"street": "t"}]}),
+    (Person, {"firstName": "a", "mood": None, "user_name_2": "u", "home-address": {"street": "s"}, "status": "active", "level": 1, "attrs": {"k": 1}, "addresses": [{"street": "t"}]}),
     (Stamps, {"created": WHENS[0], "born": DAYS[0], "avatar": BLOBS[1], "score": 1.5, "active": True}),
     (Employee, {"id": 1, "boss": "b", "office": {"street": "s"}}),
 ]
@@ -53,7 +53,7 @@ def ob_person_scalars_a(fn: str, has_ln: bool, ln: str, has_class: bool, cl: str
     pre: len(fn) <= 2 and len(ln) <= 1 and len(cl) <= 1
     post: _
     """
-    doc = {"firstName": fn}
+    doc = {"firstName": fn, "mood": "ok"}
     if has_ln:
         doc["last_name"] = ln
     if has_class:
@@ -66,7 +66,7 @@ def tw_person_scalars_a(fn: str, has_ln: bool, ln: str, has_class: bool, cl: str
     pre: len(fn) <= 2 and len(ln) <= 1 and len(cl) <= 1
     post: _
     """
-    U(S({"firstName": fn}, Person))
+    U(S({"firstName": fn, "mood": "ok"}, Person))
     return False
 
 
@@ -75,7 +75,7 @@ def ob_person_scalars_b(fn: str, has_from: bool, fr: int, has_nick: bool, nick_n
     pre: len(fn) <= 1
     post: _
     """
-    doc = {"firstName": fn}
+    doc = {"firstName": fn, "mood": "ok"}
     if has_from:
         doc["from"] = fr
     if has_nick:
@@ -88,30 +88,32 @@ def tw_person_scalars_b(fn: str, has_from: bool, fr: int, has_nick: bool, nick_n
     pre: len(fn) <= 1
     post: _
     """
-    U(S({"firstName": fn, "from": fr}, Person))
+    U(S({"firstName": fn, "mood": "ok", "from": fr}, Person))
     return False
 
 
-def ob_person_colliding_keys(fn: str, has_a: bool, a: str, has_b: bool, b: str) -> bool:
+def ob_person_colliding_keys(fn: str, has_a: bool, a: str, has_b: bool, b: str, has_c: bool) -> bool:
     """
     pre: len(fn) <= 1 and len(a) <= 2 and len(b) <= 2
     post: _
     """
-    doc = {"firstName": fn}
+    doc = {"firstName": fn, "mood": "ok"}
     if has_a:
         doc["userName"] = a
     if has_b:
         doc["user_name"] = b
+    if has_c:
+        doc["user_name_2"] = a + b  # a third key whose own name looks like the de-collision suffix of the second
     back = U(S(dict(doc), Person))
     return _norm(back) == _norm(doc)
 
 
-def tw_person_colliding_keys(fn: str, has_a: bool, a: str, has_b: bool, b: str) -> bool:
+def tw_person_colliding_keys(fn: str, has_a: bool, a: str, has_b: bool, b: str, has_c: bool) -> bool:
     """
     pre: len(fn) <= 1 and len(a) <= 2 and len(b) <= 2
     post: _
     """
-    U(S({"firstName": fn, "userName": a}, Person))
+    U(S({"firstName": fn, "mood": "ok", "userName": a}, Person))
     return False
 
 
@@ -120,7 +122,7 @@ def ob_person_nested_a(fn: str, has_home: bool, street: str, has_zip: bool, n_ad
     pre: len(fn) <= 1 and len(street) <= 1 and 0 <= n_addr <= 2
     post: _
     """
-    doc = {"firstName": fn}
+    doc = {"firstName": fn, "mood": "ok"}
     if has_home:
         doc["home-address"] = {"street": street}
         if has_zip:
@@ -135,7 +137,7 @@ def tw_person_nested_a(fn: str, has_home: bool, street: str, has_zip: bool, n_ad
     pre: len(fn) <= 1 and len(street) <= 1 and 0 <= n_addr <= 2
     post: _
     """
-    U(S({"firstName": fn, "home-address": {"street": street}}, Person))
+    U(S({"firstName": fn, "mood": "ok", "home-address": {"street": street}}, Person))
     return False
 
 
@@ -144,7 +146,7 @@ def ob_person_nested_b(fn: str, n_tags: int, has_attrs: bool, av: int) -> bool:
     pre: len(fn) <= 1 and 0 <= n_tags <= 2
     post: _
     """
-    doc = {"firstName": fn}
+    doc = {"firstName": fn, "mood": "ok"}
     if n_tags:
         doc["tags"] = [fn for _ in range(n_tags)]
     if has_attrs:
@@ -157,7 +159,7 @@ def tw_person_nested_b(fn: str, n_tags: int, has_attrs: bool, av: int) -> bool:
     pre: len(fn) <= 1 and 0 <= n_tags <= 2
     post: _
     """
-    U(S({"firstName": fn, "attrs": {"k": av}}, Person))
+    U(S({"firstName": fn, "mood": "ok", "attrs": {"k": av}}, Person))
     return False
 
 
@@ -166,7 +168,7 @@ def ob_person_enums(fn: str, has_status: bool, si: int, has_level: bool, li: int
     pre: len(fn) <= 1 and 0 <= si < 3 and 0 <= li < 3
     post: _
     """
-    doc = {"firstName": fn}
+    doc = {"firstName": fn, "mood": "ok"}
     if has_status:
         doc["status"] = STATUS[si]
     if has_level:
@@ -179,7 +181,7 @@ def tw_person_enums(fn: str, has_status: bool, si: int, has_level: bool, li: int
     pre: len(fn) <= 1 and 0 <= si < 3 and 0 <= li < 3
     post: _
     """
-    U(S({"firstName": fn, "status": STATUS[si]}, Person))
+    U(S({"firstName": fn, "mood": "ok", "status": STATUS[si]}, Person))
     return False
 
 
@@ -235,4 +237,49 @@ def tw_employee_allof(i: int, has_kind: bool, k: str, boss: str, has_office: boo
     post: _
     """
     U(S({"id": i, "boss": boss}, Employee))
+    return False
+
+
+def ob_person_required_nullable_enum(fn: str, m: int) -> bool:
+    """
+    pre: len(fn) <= 2 and 0 <= m <= 2
+    post: _
+    """
+    doc = {"firstName": fn, "mood": ["ok", "bad", None][m]}
+    back = U(S(dict(doc), Person))
+    return back.get("firstName") == fn and back.get("mood") == doc["mood"]
+
+
+def tw_person_required_nullable_enum(fn: str, m: int) -> bool:
+    """
+    pre: len(fn) <= 2 and 0 <= m <= 2
+    post: _
+    """
+    U(S({"firstName": fn, "mood": "ok"}, Person))
+    return False
+
+
+def ob_stamps_datetime_map(w: int, n: int, k: int) -> bool:
+    """
+    pre: 0 <= w < 3 and 0 <= n <= 2 and 0 <= k < 3
+    post: _
+    """
+    import datetime as dt
+
+    doc = {"created": WHENS[w]}
+    if n:
+        doc["runs"] = {"first": WHENS[k], "second": WHENS[(k + 1) % 3]} if n == 2 else {"first": WHENS[k]}
+    back = U(S(copy.deepcopy(doc), Stamps))
+    runs = back.get("runs") or {}
+    if set(runs) != set(doc.get("runs", {})):
+        return False
+    return all(isinstance(v, str) and dt.datetime.fromisoformat(v) == dt.datetime.fromisoformat(doc["runs"][key]) for key, v in runs.items())
+
+
+def tw_stamps_datetime_map(w: int, n: int, k: int) -> bool:
+    """
+    pre: 0 <= w < 3 and 0 <= n <= 2 and 0 <= k < 3
+    post: _
+    """
+    U(S({"created": WHENS[w], "runs": {"first": WHENS[k]}}, Stamps))
     return False
